@@ -41,12 +41,10 @@ Section BE.
 
   Variable p : be_params.
 
-  Fixpoint be_loop (fuel : nat) (time_step : T) (l : be_loop_state) (tr : list be_event) : be_result :=
-    match fuel with
-    | O => mkBeResult OutOfFuel (b_t l) (b_stats l) (b_s l) tr
-    | S fuel' =>
+  Definition be_iter (time_step : T) (l : be_loop_state)
+    : (solver_state * T * stats * bstate * list be_event) + (be_loop_state * list be_event) :=
       if b_fresh l && negb (ltb (b_t l) time_step) then
-        mkBeResult (b_state l) (b_t l) (b_stats l) (b_s l) tr
+        inl (b_state l, b_t l, b_stats l, b_s l, [])
       else
         let st0 := if b_fresh l then Running else b_state l in
         let iter0 := if b_fresh l then 0 else b_iter l in
@@ -55,39 +53,59 @@ Section BE.
         (* one iteration *)
         let f := forcing (bYn1 s) (vzero (bForcing s)) in
         let j := add_diag (ndiv N (n1 N) H) (negjac (bYn1 s) (mzero (bJac s))) in
-        let '(j', lu') := if in_place then (factor_ip j, bLU s) else (j, factor_sep j (bLU s)) in
+        let j' := if in_place then factor_ip j else j in
+        let lu' := if in_place then bLU s else factor_sep j (bLU s) in
         let rhs := vresid H f (bYn1 s) (bYn s) in
         let delta := if in_place then solve_ip j' rhs else solve_sep lu' rhs in
         let yn1 := vclamp_add (bYn1 s) delta in
         let s1 := mkBState yn1 j' lu' (bYn s) delta in
         let st := bump (b_stats l) 1 1 1 0 0 1 1 in
-        let tr1 := tr ++ [BeIter H (bYn1 s) j rhs delta] in
+        let tr1 := [BeIter H (bYn1 s) j rhs delta] in
         let converged := if iter0 =? 0 then false else is_converged delta yn1 in
         let iter1 := S iter0 in
         if negb converged && (iter1 <? bp_max_iter p) then
-          be_loop fuel' time_step (mkBeLoop s1 (b_t l) H st st0 (b_nsucc l) (b_nfail l) false iter1) tr1
+          inr (mkBeLoop s1 (b_t l) H st st0 (b_nsucc l) (b_nfail l) false iter1, tr1)
         else if negb converged then
           (* failed to converge within max_iter iterations *)
           let st' := bump st 0 0 0 0 1 0 0 in
           if length (bp_reductions p) <=? b_nfail l then
-            mkBeResult AcceptingUnconvergedIntegration (nadd N (b_t l) H) st' s1 (tr1 ++ [BeUnconverged (b_t l) H])
+            inl (AcceptingUnconvergedIntegration, nadd N (b_t l) H, st', s1, tr1 ++ [BeUnconverged (b_t l) H])
           else
             let s2 := mkBState (bYn s1) (bJac s1) (bLU s1) (bYn s1) (bForcing s1) in
             let H' := nmul N H (nth (b_nfail l) (bp_reductions p) (n0 N)) in
             let H'' := bmin H' (nsub N time_step (b_t l)) in
-            be_loop fuel' time_step (mkBeLoop s2 (b_t l) H'' st' st0 0 (S (b_nfail l)) true 0) (tr1 ++ [BeReject H])
+            inr (mkBeLoop s2 (b_t l) H'' st' st0 0 (S (b_nfail l)) true 0, tr1 ++ [BeReject H])
         else
           let st' := bump st 0 0 0 1 0 0 0 in
           let t' := nadd N (b_t l) H in
           let s2 := mkBState (bYn1 s1) (bJac s1) (bLU s1) (bYn1 s1) (bForcing s1) in
           let ns := S (b_nsucc l) in
-          let '(ns', H') := if 2 <=? ns then (0, nmul N H two) else (ns, H) in
+          let ns' := if 2 <=? ns then 0 else ns in
+          let H' := if 2 <=? ns then nmul N H two else H in
           let H'' := bmin H' (nsub N time_step t') in
-          be_loop fuel' time_step (mkBeLoop s2 t' H'' st' Converged ns' (b_nfail l) true 0) (tr1 ++ [BeAccept (b_t l) H])
+          inr (mkBeLoop s2 t' H'' st' Converged ns' (b_nfail l) true 0, tr1 ++ [BeAccept (b_t l) H]).
+
+  Fixpoint be_loop (fuel : nat) (time_step : T) (l : be_loop_state) (tr : list be_event) : be_result :=
+    match fuel with
+    | O => mkBeResult OutOfFuel (b_t l) (b_stats l) (b_s l) tr
+    | S fuel' =>
+      match be_iter time_step l with
+      | inl (st, t, sts, s, ev) => mkBeResult st t sts s (tr ++ ev)
+      | inr (l', ev) => be_loop fuel' time_step l' (tr ++ ev)
+      end
     end.
 
   Definition be_solve (fuel : nat) (time_step : T) (s : bstate) : be_result :=
-    let H := if is_zero (bp_h_start p) then time_step else bp_h_start p in
+    let H := if is_zero (bp_h_start p) then time_step else bmin (bp_h_start p) time_step in
     let s0 := mkBState (bYn1 s) (bJac s) (bLU s) (bYn1 s) (bForcing s) in   (* Yn.Copy(Yn1) *)
     be_loop fuel time_step (mkBeLoop s0 (n0 N) H stats0 NotYetCalled 0 0 true 0) [].
 End BE.
+
+Arguments BeIter {N V M}. Arguments BeAccept {N V M}. Arguments BeReject {N V M}. Arguments BeUnconverged {N V M}.
+Arguments b_s {N V M F}. Arguments b_t {N V M F}. Arguments b_H {N V M F}. Arguments b_stats {N V M F}.
+Arguments b_state {N V M F}. Arguments b_nsucc {N V M F}. Arguments b_nfail {N V M F}. Arguments b_fresh {N V M F}.
+Arguments b_iter {N V M F}.
+Arguments br_state {N V M F}. Arguments br_final_time {N V M F}. Arguments br_stats {N V M F}.
+Arguments br_s {N V M F}. Arguments br_trace {N V M F}.
+Arguments bYn1 {V M F}. Arguments bJac {V M F}. Arguments bLU {V M F}. Arguments bYn {V M F}. Arguments bForcing {V M F}.
+Arguments bp_h_start {N}. Arguments bp_max_iter {N}. Arguments bp_reductions {N}.
